@@ -59,9 +59,13 @@ impl Sink {
 pub assume_specification<T, E, U> [Result::<T, E>::and] (a: Result<T, E>, b: Result<U, E>) -> (r: Result<U, E>)
     where T: core::marker::Destruct, E: core::marker::Destruct, U: core::marker::Destruct
     ensures a is Ok ==> r == b, a is Err ==> r is Err && r->Err_0 == a->Err_0;
-// R17: `value.find(|c: char| !c.is_ascii_alphanumeric()).is_some()` (str pattern API)
+// R17: `value.find(|c: char| PRED).is_some()` (str pattern API): is there a character satisfying the closure?
 #[verifier::external_body]
-fn str_has_non_alnum(s: &str) -> (b: bool) { unimplemented!() }
+fn str_any_char<F: Fn(char) -> bool>(s: &str, f: F) -> (b: bool)
+    requires forall|c: char| call_requires(f, (c,)),
+    ensures b ==> exists|i: int| 0 <= i < s@.len() && call_ensures(f, (#[trigger] s@[i],), true),
+        !b ==> forall|i: int| 0 <= i < s@.len() ==> call_ensures(f, (#[trigger] s@[i],), false),
+{ unimplemented!() }
 
 // ---- fault-free output of each writer method: NOT fixed here.  C18 does not say what the writer writes, only
 // that it stops at the first failure; the texts out_link / out_key / out_quoted / esc are generated from the
@@ -256,6 +260,7 @@ def build(repo):
 
 def build_variant(repo, with_step):
     u = Unit(NAME, repo)
+    u.prelude('charclass.rs')
     u.raw(SPEC, 'units/lfw.py')
     u.items('link_format.rs', 'const QUOTE_ESCAPE_CHAR', 'const ATTR_SEPARATOR_CHAR', 'const LINK_SEPARATOR_CHAR',
             "pub struct LinkFormatWrite<'a, T: ?Sized>", "impl<'a, T: Write + ?Sized> LinkFormatWrite<'a, T>",
@@ -277,7 +282,28 @@ def build_variant(repo, with_step):
     u.rule('R15:write!-str', r'write!\(self\.write, "\{\}", link\)', 'self.write.write_display_str(link)', 1)
     u.rule('R15:write!-u32', r'write!\(self\.0\.write, "\{\}", value\)', 'self.0.write.write_display_u32(value)', 1)
     u.rule('R16:debug_assert', r"debug_assert!\(key\s*\.find\(\|c: char\| c\.is_ascii_whitespace\(\) \|\| c == '='\)\s*\.is_none\(\)\);", '', 1)
-    u.rule('R17:str-find', r'value\.find\(\|c: char\| !c\.is_ascii_alphanumeric\(\)\)\.is_some\(\)', 'str_has_non_alnum(value)', 1)
+    # R17/R38: the quoting decision of attr(): `value.find(|c: char| PRED).is_some()`; PRED (char class methods, !, &&, ||) is
+    # translated into the spec predicate attr_quotes(c) and into wrapper calls for the executable closure
+    s17, p17, bo17, bc17 = u._fn_span((LAW, 'attr'))
+    m17 = re.compile(r'value\s*\.find\(\|(\w+): char\| ((?:[^()]|\((?:[^()]|\([^()]*\))*\))*?)\)\s*\.is_some\(\)').search(u.text, bo17, bc17)
+    if not m17:
+        raise ExtractError('unit lfw: quoting decision of attr() not of the form value.find(|c: char| PRED).is_some()')
+    cvar17, pred = m17.group(1), m17.group(2)
+    CLASSES = {'is_ascii': 'is_ascii_char', 'is_ascii_alphanumeric': 'is_ascii_alnum', 'is_ascii_alphabetic': 'is_ascii_alpha', 'is_ascii_digit': 'is_ascii_digit',
+               'is_ascii_whitespace': 'is_ascii_ws', 'is_ascii_punctuation': 'is_ascii_punct', 'is_whitespace': 'is_uws', 'is_alphanumeric': 'is_ualnum'}
+    def tr(body, spec):
+        def one(mm):
+            if mm.group(1) != cvar17 or mm.group(2) not in CLASSES:
+                raise ExtractError('unit lfw: unsupported call in the quoting predicate: ' + mm.group(0))
+            return ('%s(%s)' % (CLASSES[mm.group(2)], cvar17)) if spec else ('char_%s(%s)' % (mm.group(2), cvar17))
+        out = re.sub(r'(\w+)\.(\w+)\(\)', one, body)
+        if re.search(r'[^\w\s!&|()\'=<>\\,;"]', out):
+            raise ExtractError('unit lfw: unsupported token in the quoting predicate: ' + body)
+        return out
+    pred_spec, pred_exec = tr(pred, True), tr(pred, False)
+    u.text = u.text[:m17.start()] + 'str_any_char(value, |%s: char| -> (b: bool) ensures b == attr_quotes(%s) { %s })' % (cvar17, cvar17, pred_exec) + u.text[m17.end():]
+    u.rule_hits.append(('R17:str-find-predicate', 1))
+    ATTR_QUOTES = 'pub open spec fn attr_quotes(%s: char) -> bool { %s }\npub open spec fn attr_quoted_for(v: Seq<char>) -> bool { exists|i: int| 0 <= i < v.len() && attr_quotes(#[trigger] v[i]) }\n' % (cvar17, pred_spec)
     for fn in ['attr', 'attr_u32', 'attr_quoted']:
         desugar_mut_self(u, (LAW, fn))
 
@@ -316,13 +342,13 @@ def build_variant(repo, with_step):
     ''' % {'P': opt(*attr_blocks[1]), 'U': opt(*u32_blocks[0]), 'E': EMPTY, 'C1': C1, 'C2': C2, 'L1': opt(*link_rest[0]), 'L2': opt(*link_rest[1]), 'L3': opt(*link_rest[2]),
            'K1': opt(*key_blocks[0]), 'K2': opt(*key_blocks[1]), 'K3': opt(*key_blocks[2]), 'c': cvar,
            'ESC': opt(*q_loop[0]), 'CH': opt(*q_loop[1]), 'Q1': opt(*q_blocks[0]), 'Q2': opt(*q_blocks[1])}
-        gen_spec = re.sub(r'\b(self|this)\.(0\.)?', '', gen_spec)
+        gen_spec = re.sub(r'\b(self|this)\.(0\.)?', '', gen_spec) + '    // the quoting decision of attr(), translated from its closure\n    ' + ATTR_QUOTES.replace('\n', '\n    ')
         marker = '// <<< code'
         i0 = u.text.index(marker)
         u.text = u.text[:i0] + gen_spec + u.text[i0:]
     else:
         i0 = u.text.index('// <<< code')
-        u.text = u.text[:i0] + 'pub open spec fn esc(c: char) -> Seq<char> { seq![c] }   // unused in the invariant-only variant\n' + u.text[i0:]
+        u.text = u.text[:i0] + 'pub open spec fn esc(c: char) -> Seq<char> { seq![c] }   // unused in the invariant-only variant\n' + ATTR_QUOTES + u.text[i0:]
     # ---- invariant and contracts ------------------------------------------------------------
     u.body_start_impl = None
     u.text = u.text.replace("impl<'a> LinkFormatWrite<'a> {", """impl<'a> LinkFormatWrite<'a> {
@@ -343,7 +369,7 @@ def build_variant(repo, with_step):
         ensures final(self).0.inv(), final(self).0.is_first == old(self).0.is_first, final(self).0.add_newlines == old(self).0.add_newlines,
             old(self).0.err() ==> final(self).0.err(),
             step(*old(self).0.write, old(self).0.err(), *final(self).0.write, final(self).0.err(), out_key(key))''', props=PROPS)
-    for fn, out in [('attr', 'step(*self.0.write, self.0.err(), *r.0.write, r.0.err(), out_quoted(key, value)) || step(*self.0.write, self.0.err(), *r.0.write, r.0.err(), out_plain(key, value))'), ('attr_u32', 'step(*self.0.write, self.0.err(), *r.0.write, r.0.err(), out_u32(key, value))'),
+    for fn, out in [('attr', 'step(*self.0.write, self.0.err(), *r.0.write, r.0.err(), (if attr_quoted_for(value@) { out_quoted(key, value) } else { out_plain(key, value) }))'), ('attr_u32', 'step(*self.0.write, self.0.err(), *r.0.write, r.0.err(), out_u32(key, value))'),
                     ('attr_u16', 'step(*self.0.write, self.0.err(), *r.0.write, r.0.err(), out_u32(key, value as u32))'),
                     ('attr_quoted', 'step(*self.0.write, self.0.err(), *r.0.write, r.0.err(), out_quoted(key, value))')]:
         u.contract((LAW, fn), '''        requires self.0.inv()
@@ -356,7 +382,7 @@ def build_variant(repo, with_step):
             final(self.0).is_first == old(self.0).is_first, final(self.0).add_newlines == old(self.0).add_newlines''', props=PROPS)
     if not with_step:
         # drop every step(...) clause, keep the invariant clauses
-        u.text = re.sub(r',\s*\n\s*step\([^\n]*\)( \|\| step\([^\n]*\))?', '', u.text)
+        u.text = re.sub(r',\s*\n\s*step\([^\n]*\)', '', u.text)
         u.finish(HEAD)
         return u
     # ---- proofs of the prefix clause: ghost entry state + one lemma_block per guarded write -----
